@@ -234,6 +234,23 @@ class _SimMachine:
         raise FileNotFoundError(2, "No such file or directory", path)
 
 
+class _OsShim:
+    """``os`` as seen by xonsh.history.json: everything real, the order of unlink calls recorded."""
+
+    def __init__(self, real):
+        self._real = real
+        self.removed = []
+
+    def __getattr__(self, name):
+        return getattr(self._real, name)
+
+    def remove(self, path, *a, **k):
+        self.removed.append(path)
+        return self._real.remove(path, *a, **k)
+
+    unlink = remove
+
+
 class _BootCtl:
     """`.boot = B` boots the simulated machine at B (and drops uptime.boottime()'s cache)."""
 
@@ -276,6 +293,9 @@ def _init_worker():
     _W.sim = _SimMachine()
     _W.up = _BootCtl(_W.sim, real_uptime)
     hj.time = _W.vt  # virtual clock: rebound in this module's namespace only
+    _W.osrec = _OsShim(getattr(hj.os, "_real", hj.os))
+    hj.os = _W.osrec  # real os; records the order in which a pass unlinks files
+    _W.rm_order = []
     hj.uptime = real_uptime  # the REAL boot-time code ...
     real_uptime.time = _W.sim  # ... reading the clocks of a simulated machine (default: suspended for 1 h)
     real_uptime.open = _W.sim.open
@@ -405,6 +425,7 @@ def _gc_json(size, force, boot, via_env=False):
     _W.vt.now = NOW
     _W.up.boot = boot
     del _W.printed[:]
+    del _W.osrec.removed[:]
     crash = None
     try:
         if via_env:
@@ -419,6 +440,7 @@ def _gc_json(size, force, boot, via_env=False):
     extra = after - before
     if extra:
         crash = (crash or "") + f" left new files {sorted(extra)}"
+    _W.rm_order = [os.path.basename(p)[len("xonsh-") : -len(".json")] for p in _W.osrec.removed]
     refused = any("garbage collection would discard" in p for p in _W.printed)
     return deleted, crash, refused
 
@@ -487,15 +509,30 @@ def _case(states, mask, pos, pad, unit, limit, force, **kw):
     return c
 
 
+def _unlink_order_bad(files):
+    """'deletes strictly oldest-first': the GC thread is a daemon that can die at any point of a pass, so
+    the ORDER of the unlink calls matters - after k unlinks the k oldest doomed files must be the ones
+    gone.  Returns the offending order, or None (equal timestamps may go either way)."""
+    order = _W.rm_order
+    if len(order) < 2:
+        return None
+    ts = {f["name"]: f["ts"] for f in files}
+    seq = [ts[n] for n in order if n in ts]
+    return list(order) if any(a > b for a, b in zip(seq, seq[1:])) else None
+
+
 def _judge(files, boot, unit, limit, force, deleted, crash, refused):
     """None if the outcome is allowed, else (clause, expected)."""
     if crash:
         return "crash:" + crash.split(":")[0].strip(), "no exception"
     acc, _ = accept_sets(files, boot, unit, limit, force, primary_only=True)
+    if deleted not in acc:
+        acc, _ = accept_sets(files, boot, unit, limit, force)
     if deleted in acc:
-        return None
-    acc, _ = accept_sets(files, boot, unit, limit, force)
-    if deleted in acc:
+        order = _unlink_order_bad(files)
+        if order:
+            by_age = sorted(order, key=lambda n: next(f["ts"] for f in files if f["name"] == n))
+            return "unlink-order-not-oldest-first", {"unlink_order_observed": order, "oldest_first": by_age}
         return None
     return classify_mismatch(files, boot, unit, limit, force, deleted, refused), sorted(sorted(a) for a in acc)
 
@@ -503,8 +540,8 @@ def _judge(files, boot, unit, limit, force, deleted, crash, refused):
 def _key(clause, unit, limit, force):
     """<clause>[:<unit>][:limit=0] - which guarantee broke, in which unit's selection; the 0 boundary is
     kept apart because it is a separate code path (slices / empty sub-selects)."""
-    if clause == "locked-deleted":  # decided by the file listing, not by the unit
-        return "json:locked-deleted"
+    if clause in ("locked-deleted", "unlink-order-not-oldest-first"):  # not decided by the unit's selection
+        return "json:" + clause
     return f"json:{clause}:{unit}" + (":limit=0" if limit == 0 else "")
 
 
@@ -541,7 +578,7 @@ def _check_collection(item):
                             nontrivial += 1
                         refusals += bool(refused)
                         deletions += bool(deleted)
-                        bad = None if (deleted in acc and not crash) else _judge(files, boot, unit, limit, force, deleted, crash, refused)
+                        bad = None if (deleted in acc and not crash and len(_W.rm_order) < 2) else _judge(files, boot, unit, limit, force, deleted, crash, refused)
                         if bad:
                             key = _key(bad[0], unit, limit, force)
                             if key not in viols:
@@ -1102,4 +1139,8 @@ def _replay(rec):
     print(f"virtual now={NOW:g} real boot={boot:g}, machine: source={_W.sim.source} suspended={_W.sim.S:g}s -> uptime.boottime()={_W.hj.uptime.boottime():g}; run_gc(size={size!r}, force={case['force']})")
     print("observed deleted :", sorted(deleted), "| crash:", crash, "| refusal warning printed:", refused)
     print("expected deletion set, one of:", sorted(sorted(a) for a in acc), f"({label})")
-    return 1 if (crash or deleted not in acc) else 0
+    print("unlink order     :", _W.rm_order)
+    verdict = _judge(files, boot, case["unit"], case["limit"], case["force"], deleted, crash, refused)
+    if verdict:
+        print("violated         :", verdict[0], "| expected:", verdict[1])
+    return 1 if verdict else 0
